@@ -101,13 +101,13 @@ type Params struct {
 }
 
 type World struct {
-	P          Params
-	Vals       []*Validator
-	Users      []*Account
-	EthUsers   []*Account
-	EthKeys    map[string][]byte // addr string -> 32-byte secp key for eth users
-	Doc        *config.GenesisDoc
-	LockABI    string
+	P           Params
+	Vals        []*Validator
+	Users       []*Account
+	EthUsers    []*Account
+	EthKeys     map[string][]byte // addr string -> 32-byte secp key for eth users
+	Doc         *config.GenesisDoc
+	LockABI     string
 	EthContract ethcmn.Address
 }
 
